@@ -289,6 +289,7 @@ class CaseSet:
         reverse order: without random models the answers must be those of the crowded process, query by query (nothing that
         another world or an earlier query left behind may matter).  Disagreements go to PROCESS_TIE (reported by lib/check.py)."""
         picked = 0
+        groups = []
         for slot, wj, el in self.worlds:
             if picked >= nworlds:
                 break
@@ -307,7 +308,9 @@ class CaseSet:
                     pre.insert(0, "culling 0")
             elif wi >= 1 and self.probe[wi - 1].startswith("culling 0"):
                 pre.append("culling 0")
-            lines = pre + [self.probe[wi]] + (["culling 1"] if "culling 0" in pre else []) + [self.probe[i] for i in reversed(idx)]
+            head = pre + [self.probe[wi]] + (["culling 1"] if "culling 0" in pre else [])
+            groups.append((slot, head, idx))
+            lines = head + [self.probe[i] for i in reversed(idx)]
             ans = common.run_probe(lines)[-len(idx):]
             PROCESS_STATS["worlds"] += 1
             PROCESS_STATS["queries"] += len(idx)
@@ -317,6 +320,27 @@ class CaseSet:
                     d["alone_in_a_fresh_process"], d["among_the_other_worlds"] = a, impl[i]
                     PROCESS_TIE.append(("a query answers differently when its world is alone in a fresh process (queries in reverse order) than among the "
                                         "other worlds and queries of this run: %s vs %s" % (a[:60], impl[i][:60]), d))
+                    break
+
+        # the same worlds once more in one fresh process, built one after the other, each destroyed before the next is built
+        # (a loop over model variants; the allocator hands the memory of the destroyed world to the next one): the answers must
+        # again be those of the crowded process - nothing may outlive the destruction of a world
+        if len(groups) >= 2:
+            lines, where = [], []
+            for slot, head, idx in groups:
+                lines += head
+                for i in idx:
+                    where.append((len(lines), i))
+                    lines.append(self.probe[i])
+                lines.append("free %d" % slot)
+            ans = common.run_probe(lines)
+            PROCESS_STATS["reused"] = PROCESS_STATS.get("reused", 0) + len(where)
+            for k, i in where:
+                if ans[k] != impl[i]:
+                    d = self.describe(i)
+                    d["after_the_destruction_of_the_previous_world"], d["among_the_other_worlds"] = ans[k], impl[i]
+                    PROCESS_TIE.append(("a query answers differently when its world is built after the previous one was destroyed (fresh process, one "
+                                        "world alive at a time) than among the other worlds of this run: %s vs %s" % (ans[k][:60], impl[i][:60]), d))
                     break
 
     def run(self, model=True):
